@@ -44,7 +44,7 @@ type symbol struct {
 var alphabet = []symbol{
 	{"start", ""},
 	{"verify", "right"}, {"verify", "wrong-proof"}, {"verify", "A=0"}, {"verify", "A=N"}, {"verify", "A=2N"}, {"verify", "A-missing"}, {"verify", "proof-missing"},
-	{"verify", "replay-recorded"},
+	{"verify", "replay-recorded"}, {"verify", "A=0+proof-over-empty-key"}, {"verify", "A=N+proof-over-empty-key"}, {"verify", "A-missing+proof-over-empty-key"},
 	{"exchange", "genuine"}, {"exchange", "tampered-ciphertext"}, {"exchange", "tampered-tag"}, {"exchange", "short"}, {"exchange", "replay"},
 	{"exchange", "zero-key"}, {"exchange", "hkdf-of-empty-secret"}, {"exchange", "random-key"}, {"exchange", "signed-by-other-key"},
 	{"exchange", "permuted-material"}, {"exchange", "name-swapped"}, {"exchange", "key-swapped"},
@@ -160,6 +160,22 @@ func build(w *world, p *peer, s symbol) built {
 			return built{msg: m, rightProof: p.started}
 		case "wrong-proof":
 			return built{msg: refctl.SetupM3(cl.Abytes, cl.M1)}
+		case "A=0+proof-over-empty-key", "A=N+proof-over-empty-key", "A-missing+proof-over-empty-key":
+			// what a peer without the code can compute when the accessory's SRP session has no key at all:
+			// the proof over an EMPTY session key (big-endian A exactly as the library hashes it: minimal bytes)
+			var A, hashed []byte
+			switch s.Var {
+			case "A=0+proof-over-empty-key":
+				A, hashed = []byte{0}, nil
+			case "A=N+proof-over-empty-key":
+				A, hashed = N.Bytes(), N.Bytes()
+			}
+			proof := refctl.ProofM1(salt, hashed, new(big.Int).SetBytes(B).Bytes(), nil)
+			if s.Var == "A-missing+proof-over-empty-key" {
+				e := &refctl.Enc{}
+				return built{msg: e.Byte(refctl.TagState, 3).Bytes(refctl.TagProof, proof).B}
+			}
+			return built{msg: refctl.SetupM3(A, proof)}
 		case "A=0":
 			return built{msg: refctl.SetupM3([]byte{0}, cl.M1)}
 		case "A=N":
@@ -568,6 +584,9 @@ func main() {
 		{{"start", ""}, {"verify", "A=N"}},
 		{{"start", ""}, {"verify", "A-missing"}},
 		{{"start", ""}, {"verify", "proof-missing"}},
+		{{"start", ""}, {"verify", "A=0+proof-over-empty-key"}},
+		{{"start", ""}, {"verify", "A=N+proof-over-empty-key"}},
+		{{"start", ""}, {"verify", "A-missing+proof-over-empty-key"}},
 		{{"start", ""}, {"verify", "right"}, {"exchange", "genuine"}},
 		{{"start", ""}, {"verify", "right"}, {"start", ""}},
 		{{"start", ""}, {"verify", "right"}, {"exchange", "tampered-tag"}},
